@@ -77,6 +77,7 @@ structure StartsOK (y : DSymData) (result : List (List Nat)) (M : List Dart) (st
   ok : ∀ p ∈ starts, ValidDart y p.1 ∧ 0 < p.2 ∧ (phi y)^[p.2] p.1 = p.1
   res : result = starts.map fun p => bestCyclic (seqOf y p.1 p.2)
   eqM : M = starts.reverse.flatMap fun p => (dlist y p.1 p.2).reverse
+  pos : ∀ p ∈ starts, Positive y p.1
 
 theorem StartsOK.mem {y : DSymData} {result : List (List Nat)} {M : List Dart} {starts : List (Dart × Nat)}
     (h : StartsOK y result M starts) (δ : Dart) : δ ∈ M ↔ ∃ p ∈ starts, δ ∈ dlist y p.1 p.2 := by
@@ -165,7 +166,7 @@ theorem traceStep_spec (rep : Rep) {st : TraceState} {M : List Dart} (inv : Trac
     have hpin : y.view.PInvol := by rw [y.view_eq]; exact h.set.pinvol
     have hori := partialOrientation_total hpin d hd.1 hd.2
     -- the start dart
-    have hkcases : ∃ k, k ≤ 2 ∧ k ≠ i ∧
+    have hkcases : ∃ k, k ≤ 2 ∧ k ≠ i ∧ k = kplus y i d ∧
         (match y.view.partialOrientation.getD d 0 with
          | 0 => (Outcome.panic : Outcome TraceState)
          | sg =>
@@ -179,11 +180,13 @@ theorem traceStep_spec (rep : Rep) {st : TraceState} {M : List Dart} (inv : Trac
            | .err => .err
            | .panic => .panic) := by
       rcases hori with ho | ho
-      · refine ⟨(i + 1) % 3, by omega, by omega, ?_⟩
-        rw [ho]; rfl
-      · refine ⟨(i + 2) % 3, by omega, by omega, ?_⟩
-        rw [ho]; rfl
-    obtain ⟨k, hk2, hki, hmatch⟩ := hkcases
+      · refine ⟨(i + 1) % 3, by omega, by omega, ?_, ?_⟩
+        · unfold kplus posB; rw [ho]; rfl
+        · rw [ho]; rfl
+      · refine ⟨(i + 2) % 3, by omega, by omega, ?_, ?_⟩
+        · unfold kplus posB; rw [ho]; rfl
+        · rw [ho]; rfl
+    obtain ⟨k, hk2, hki, hkpos, hmatch⟩ := hkcases
     show ∃ st' M', (match y.view.partialOrientation.getD d 0 with
          | 0 => (Outcome.panic : Outcome TraceState)
          | sg =>
@@ -221,7 +224,7 @@ theorem traceStep_spec (rep : Rep) {st : TraceState} {M : List Dart} (inv : Trac
       refine (List.Perm.append inv.result (bestCyclic_perm _)).trans ?_
       refine List.perm_append_comm.trans (List.Perm.append_right _ ?_)
       exact (List.Perm.filter _ ((List.reverse_perm _).map _)).symm
-    · refine ⟨starts ++ [((i, k, d), n)], ?_, ?_, ?_⟩
+    · refine ⟨starts ++ [((i, k, d), n)], ?_, ?_, ?_, ?_⟩
       · intro p hp
         rcases List.mem_append.1 hp with hp | hp
         · exact hst.ok p hp
@@ -233,6 +236,12 @@ theorem traceStep_spec (rep : Rep) {st : TraceState} {M : List Dart} (inv : Trac
         rfl
       · rw [List.reverse_append, List.flatMap_append, ← hst.eqM]
         simp
+      · intro p hp
+        rcases List.mem_append.1 hp with hp | hp
+        · exact hst.pos p hp
+        · simp only [List.mem_singleton] at hp
+          subst hp
+          exact hkpos
     · intro p hp
       show p ∈ ((dlist y (i, k, d) n).reverse.map Dart.le) ++ M.map Dart.le
       rw [← inv.seen]
@@ -278,7 +287,7 @@ theorem traceBoundary_marked (rep : Rep) :
       ∃ result starts, bnds = sortDesc result ∧ StartsOK y result M starts := by
   have inv0 : TraceInv (y := y) { result := [], seen := [] } [] :=
     ⟨⟨fun δ hδ => by simp at hδ, fun δ hδ => by simp at hδ, fun δ hδ => by simp at hδ, List.nodup_nil⟩,
-     rfl, List.Perm.refl _, ⟨[], fun p hp => by simp at hp, rfl, rfl⟩⟩
+     rfl, List.Perm.refl _, ⟨[], fun p hp => by simp at hp, rfl, rfl, fun p hp => by simp at hp⟩⟩
   have hkeys : ∀ k ∈ ((List.range (y.dim + 1)).flatMap fun i => (List.range y.size).map fun d0 => (i, d0 + 1)),
       k.1 ≤ 2 ∧ 1 ≤ k.2 ∧ k.2 ≤ y.size := by
     intro k hk
